@@ -26,7 +26,7 @@ def handle (case obs : List String) : String × String :=
         match parseDecCase case with
         | none => "fail:bad-case"
         | some c =>
-          let (frs, left) := Spec.Framing.split (dataOf c.evs)
+          let (frs, left) := Spec.Framing.split (grpcData c)
           let msgs := frs.filterMap (payloadMsg c.tab)
           let rest := (obs.filter (fun t => t ≠ "p" && tokKind t ≠ 'a')).drop msgs.length
           verdict [("no-panic", !obs.any isBad),
